@@ -1136,6 +1136,10 @@ impl<T: Transport, Env: UtpEnvironment> VirtualSocket<T, Env> {
 
             (Established, ST_FIN) => {
                 trace!("state: established -> last-ack");
+                // Nothing new is sent once the remote closed. Segments that are queued but were never
+                // sent must not keep the sequence number our FIN is about to take: the ACK of the FIN
+                // would count as an ACK of their bytes.
+                self.user_tx_segments.discard_unsent();
                 let our_fin = self.seq_nr;
                 self.seq_nr += 1;
                 self.state = LastAck {
